@@ -176,8 +176,10 @@ func (e *Ev) Violate(c any, key string, format string, a ...any) {
 	msg := fmt.Sprintf(format, a...)
 	e.mu.Lock()
 	defer e.mu.Unlock()
-	if len(e.Violations) >= 40 {
-		e.Violations = append(e.Violations[:39], Violation{Key: "more", Message: "more violations not listed"})
+	if len(e.Violations) >= 60 {
+		if e.Violations[len(e.Violations)-1].Key != "more" {
+			e.Violations = append(e.Violations, Violation{Key: "more", Message: "more violations not listed"})
+		}
 		return
 	}
 	path := e.writeReplay(c, msg, len(e.Violations))
